@@ -237,7 +237,7 @@ def print_assumptions(prop, prop_dir, theorems):
         axs = []
         for l in body.split("\n"):
             mm = re.match(r"^([A-Za-z_][A-Za-z0-9_.']*)\s*:", l)
-            if mm:
+            if mm and mm.group(1) != "Axioms":
                 axs.append(mm.group(1))
         res[t] = axs
     return res
